@@ -259,9 +259,16 @@ func runC14(r *Run) {
 	if m == nil || len(missing) > 0 {
 		return
 	}
-	fields := map[*types.Var]bool{m.Tx: true, m.Closed: true, m.Handler: true}
+	// every field of Agent other than the mutex itself is state shared between the methods
+	fields := map[*types.Var]bool{}
+	ast := m.T.Underlying().(*types.Struct)
+	for i := 0; i < ast.NumFields(); i++ {
+		if f := ast.Field(i); f != m.Mux {
+			fields[f] = true
+		}
+	}
 
-	lockset := r.Rule("C14.lockset", "every access to Agent.{transactions,closed,handler} (field loads/stores and every use of the loaded map) outside the constructor holds that agent's mutex", 30)
+	lockset := r.Rule("C14.lockset", "every access to a field of Agent other than the mutex (field loads/stores, every use of the loaded map, and every access to the backing array of a slice loaded from a field, followed through reslices/phis/appends) outside the constructor holds that agent's mutex", 30)
 	atomic := r.Rule("C14.atomic", "each Agent method that touches shared state has exactly one critical section (one Lock site, not in a loop) containing all its shared accesses", 6)
 	release := r.Rule("C14.release", "every path from a Lock of the agent mutex to a return passes the matching Unlock (direct or deferred)", 6)
 	nocall := r.Rule("C14.nocall", "while the agent mutex is held only builtins, map operations, pure stdlib predicates and lock-free module leaves are called; single documented exception: Close invokes the handler", 2)
